@@ -6,6 +6,9 @@
 static vnaproperty_t *reg[NREG];
 
 /* canonical walk of a subtree through the public API only */
+static void walk(const vnaproperty_t *node);
+void vh_prop_walk(const vnaproperty_t *node) { walk(node); }
+
 static void walk(const vnaproperty_t *node)
 {
     int t;
